@@ -149,6 +149,9 @@ def run(ck, m):
     alias.repeat(ck, m, 'C09', ('C09.a.reply',), 'C08.g', floor=12, runner=C09.replies)
     alias.repeat(ck, m, 'C09', ('C09.c',), 'C08.i', runner=C09.writers, key_filter=lambda k: 'auth-store' in k)
     alias.repeat(ck, m, 'C09', ('C09.d',), 'C08.h', runner=C09.fresh_credentials, key_filter=lambda k: 'permission-list-of-the-session-user' in k)
+    ck.rule('C08.j', 'a listing is filtered for the session that asks (C01.c answer-computed-by-this-call, repeated): the lister scans the map on every '
+                     'path — a remembered answer was filtered with the administrator flag of whoever asked first')
+    alias.repeat(ck, m, 'C01', ('C01.c',), 'C08.j', key_filter=lambda k: 'answer-computed-by-this-call' in k)
 
 
 def _run(ck, m):
